@@ -260,3 +260,55 @@ PLAN['C20'] = {
     'quick': lambda seed: runs('h_hist', FLOW6, 'asan', 3, 10 ** 9),
     'thorough': lambda seed: runs('h_hist', FLOW6, 'asan', 3, 10 ** 9),
 }
+
+
+# ------------------------------------------------------------------------------------------------ eroder harness (h_erode)
+SPL_GEN = ('Random grids / fields / masks / base levels as for the flow harness; graphs: single or multiple direction, '
+           'unresolved, priority-flood or spanning-tree resolved; one spl_eroder object driven through 1-3 steps (new field or '
+           'previous field minus erosion plus local subsidence; K, m, n changed through the setters); elevation passed filled or '
+           'unfilled (lakes); drainage area = accumulate(1) or random positive; K scalar or array >= 0 with zeros; m in '
+           '{0.3,0.5,1}; n in {0.5,0.8,1,1.5,2,3,4,6} (1 on multiple-direction graphs); dt in {0,1e-3,1,1e3,1e5,1e8}; tolerance in '
+           '{1e-6,1e-3,1e-1}; K dt A^m / L^n kept <= 1e250; 1e6..1e12 magnitudes not combined with n != 1. ')
+
+PLAN['C12'] = {
+    'rule': SPL_GEN + 'Oracle: erosion exactly 0 at self-receivers and at lake nodes (z <= lowest post-erosion receiver); >= -8 eps '
+            'max|z|; a lowered node stays >= lowest post-erosion receiver (same tolerance); n_corr() = number of nodes recorded by '
+            'the verification hook, each of them on its floor; constructing / set_slope_exp with n in {0.3,0.5,0.8,0.999,1.001,1.5,2} '
+            'on a multiple-direction graph throws, n = 1 does not. Non-trivial: some node was eroded.',
+    'floor': ['c12.nodes_checked', 'c12.lake_nodes', 'c12.limited_nodes', 'c12.rejections_expected', 'spl.graph.multi',
+              'spl.graph.single', 'spl.elevation.unfilled', 'spl.slope_exp.below_one', 'spl.slope_exp.above_one'],
+    'assumptions': ['parameter products finite (<= 1e250)', 'Newton tolerance >= 1e-6 with |z| <= 1e5 for n != 1'],
+    'quick': lambda seed: runs('h_erode', FLOW6, 'asan', 2, 2500),
+    'thorough': lambda seed: runs('h_erode', FLOW6, 'asan', 3, 12000),
+}
+
+PLAN['C13'] = {
+    'rule': SPL_GEN + 'Oracle: for every node that is not a self-receiver, not in a lake and not recorded as limited by the '
+            'verification hook, the backward-Euler residual (new - old + sum over lower receivers of dt K (A w)^m (drop/L)^n) '
+            'evaluated in long double is within 1e-9 x sum|terms| + rounding of the stored elevations amplified by the sensitivity '
+            'of the equation (+ the Newton tolerance when n != 1). Non-trivial: a checked node was eroded. Exponents below, at '
+            'and above one must all be reached.',
+    'floor': ['c13.nodes_checked.n_below_one', 'c13.nodes_checked.n_one', 'c13.nodes_checked.n_above_one',
+              'c13.eroded_nodes_checked', 'spl.graph.multi', 'spl.elevation.unfilled', 'spl.param_change.slope_exp'],
+    'assumptions': ['limited nodes are identified by the SPL verification hook (verif_corrected_nodes)',
+                    'nodes whose drop rounds to <= 0 with n <= 1 are skipped and counted (infinite sensitivity)'],
+    'quick': lambda seed: runs('h_erode', FLOW6, 'asan', 2, 2500),
+    'thorough': lambda seed: runs('h_erode', FLOW6, 'asan', 3, 12000),
+}
+
+RASTER4 = ['raster_rook', 'raster_queen', 'raster_bishop', 'raster_queen_nc']
+PLAN['C14'] = {
+    'rule': 'Raster shapes 3..12 (quick) / 3..20 (thorough) per axis, isotropic and anisotropic spacing (0.05..500), any border '
+            'status mix; one eroder object driven through 1-4 steps with K changed through set_k_coef (scalar, uniform array, '
+            'arrays with relative variation 1e-8..1e-2, arrays varying by 400x; magnitudes 1e-10..1e3) and dt in {1e-3,1,1e3,1e8} '
+            '(often unchanged between steps); all elevation classes. Oracle: independent dense Gaussian elimination (partial '
+            'pivoting, long double) of the two Peaceman-Rachford half steps with face-averaged diffusivity and fixed-value borders; '
+            'tolerance 16 eps (1 + 4 dt f_max) max|z| max(rows, cols); zero erosion on the borders exactly; fresh eroder on a grid '
+            'with other border statuses bit-identical; scalar vs uniform array; linearity. Non-trivial: non-zero erosion somewhere.',
+    'floor': ['c14.interior_nodes_compared', 'c14.stiff_steps', 'c14.moderate_steps', 'c14.k_changed_on_same_eroder',
+              'c14.same_dt_as_previous_step', 'c14.status_independence_checks', 'c14.scalar_vs_uniform_array_checks',
+              'c14.linearity_checks', 'c14.k.array_small_relative_variation'],
+    'assumptions': ['rounding of the explicit part of a half step is amplified by (1 + 4 dt f): the tolerance grows with stiffness'],
+    'quick': lambda seed: runs('h_erode', RASTER4, 'asan', 3, 1200),
+    'thorough': lambda seed: runs('h_erode', RASTER4, 'asan', 4, 15000),
+}
